@@ -122,6 +122,9 @@ def run_case(case):
                       seq, f"remove_nibbles_terminator({a!r})")
         dec = impl("decode_nibbles", nib_utils.decode_nibbles, enc)
         expect_eq("hp-decode-inverts", tuple(dec), arg, f"decode_nibbles(encode_nibbles({arg}))")
+        # the encoded path as another bytes-like object (a database may hand out buffers)
+        dec = impl("decode_nibbles", nib_utils.decode_nibbles, bytearray(enc))
+        expect_eq("hp-decode-inverts", tuple(dec), arg, f"decode_nibbles(bytearray(encode_nibbles({arg})))")
         expect_eq("hp-decode-inverts", hp_decode(enc), (seq, term), "reference decode of the encoding")
         if term:
             lk = impl("compute_leaf_key", nodes.compute_leaf_key, seq)
@@ -143,6 +146,13 @@ def run_case(case):
         expect_eq("bytes-to-bits", tuple(bits), bintrie.bits_of(b), f"encode_to_bin({b!r})")
         back = impl("decode_from_bin", binaries.decode_from_bin, bits)
         expect_eq("bits-bytes-inverse", back, b, f"decode_from_bin(encode_to_bin({b!r}))")
+        # the bit string as a list and as a lazily produced stream
+        back = impl("decode_from_bin", binaries.decode_from_bin, list(bits))
+        expect_eq("bits-bytes-inverse", back, b, f"decode_from_bin(list of bits of {b!r})")
+        back = impl("decode_from_bin", binaries.decode_from_bin, iter(list(bits)))
+        expect_eq("bits-bytes-inverse", back, b, f"decode_from_bin(iterator over the bits of {b!r})")
+        nibs2 = impl("bytes_to_nibbles", nib_utils.bytes_to_nibbles, bytearray(b))
+        expect_eq("bytes-to-nibbles", tuple(nibs2), want, f"bytes_to_nibbles(bytearray({b!r}))")
         info.nontrivial = len(b) >= 1
     elif kind == "bits":
         bits, child = tuple(case[1]), case[2]
